@@ -245,6 +245,35 @@ func c08Pipeline(c *wk.Case, srcN int64, withError bool, expensive bool) (*ref.N
 		if r.IntN(2) == 0 {
 			k = 0
 		}
+		if !withError && r.IntN(2) == 0 {
+			// multiUse over a short list whose size is known in advance (numbers + stages that keep the size):
+			// consumers that need one or two items
+			id := ref.Id
+			var cur *ref.Node = ref.Static("numbers", ref.Int(srcN))
+			for s := 0; s < 1+r.IntN(2); s++ {
+				a, b := fmt.Sprintf("a%d", s), fmt.Sprintf("b%d", s)
+				switch r.IntN(3) {
+				case 0:
+					cur = ref.Method(cur, "map", ref.Clo([]string{a}, tickN(s, id(a))))
+				case 1:
+					cur = ref.Method(cur, "number", ref.Clo([]string{a, b}, ref.Bin("+", tickN(s, id(b)), ref.Bin("-", id(a), id(a)))))
+				default:
+					cur = ref.Method(cur, "iir", ref.Clo([]string{a}, tickN(s, id(a))), ref.Clo([]string{a, b}, ref.Bin("+", tickN(s, id(a)), ref.Bin("-", id(b), id(b)))))
+				}
+			}
+			cons := []*ref.Node{
+				ref.Clo([]string{"l"}, ref.Method(id("l"), "first")),
+				ref.Clo([]string{"l"}, ref.Method(ref.Method(id("l"), "top", ref.Int(1)), "size")),
+				ref.Clo([]string{"l"}, ref.Method(id("l"), "present", ref.Clo([]string{"z"}, ref.Bin(">=", id("z"), ref.Int(0))))),
+				ref.Clo([]string{"l"}, ref.Method(id("l"), "indexWhere", ref.Clo([]string{"z"}, ref.Bin(">=", id("z"), ref.Int(0))))),
+			}
+			keys := []string{"u", "v", "w"}[:1+r.IntN(3)]
+			var vals []*ref.Node
+			for range keys {
+				vals = append(vals, cons[r.IntN(len(cons))])
+			}
+			return ref.Method(ref.Method(cur, "multiUse", ref.MapN(keys, vals)), "string"), fmt.Sprintf("demand multiUse-small n=%d", srcN)
+		}
 	}
 	if withError && expensive {
 		// a parallel stage reads ahead by its worker count; errors inside that window are unclaimed
